@@ -1442,3 +1442,588 @@ func checkHookKeepsPosition(w *core.World, r *core.Report, rule string) {
 	r.Check(len(movers) == 0, rule, "engine pre-VM hook: leaves the page index untouched", pos, "no State mover is called",
 		fmt.Sprintf("the hook that runs at every engine initialisation calls %v, which clear the page index: a session served by one engine per request loses its page before each input (it cannot browse past page 1), a long-lived engine keeps it", movers))
 }
+
+// ---------------------------------------------------------------------------------------------
+// round 8
+
+// checkCapacityWiring (C09 R10): the engine sets a cache capacity only from a positive
+// Config.CacheSize: every call of Cache.WithCacheSize in package engine lies behind the
+// CacheSize > 0 edge. Applied unconditionally, a zero (unset) config value overwrites the capacity
+// the application or the stored session gave the cache with 0 = unlimited.
+func checkCapacityWiring(w *core.World, r *core.Report, rule string) {
+	n := 0
+	for _, fn := range w.FuncsIn("engine") {
+		for _, c := range core.CallsTo(fn, "cache.(*Cache).WithCacheSize") {
+			n++
+			cut := core.NewCut()
+			for _, in := range allInstrs(fn) {
+				bo, ok := in.(*ssa.BinOp)
+				if !ok {
+					continue
+				}
+				x, op, k, ok := core.CmpConst(bo)
+				if !ok || k != 0 {
+					continue
+				}
+				if _, f, ok := core.LoadedField(x); !ok || f != "CacheSize" {
+					continue
+				}
+				switch op {
+				case token.GTR, token.NEQ:
+					cut.AddEdge(core.EdgesWhere(bo, true)...)
+				case token.EQL, token.LEQ:
+					cut.AddEdge(core.EdgesWhere(bo, false)...)
+				}
+			}
+			ok, path := core.MustPass(c.(ssa.Instruction), cut)
+			r.Check(ok && len(cut.Edges) > 0, rule, core.QName(fn)+": capacity set only from a positive Config.CacheSize", c.Pos(), "behind CacheSize > 0",
+				"the engine overwrites the cache's capacity although Config.CacheSize may be 0: the capacity the application or the stored session carried becomes 0 = unlimited: "+w.PathString(path))
+		}
+	}
+	r.Floor(rule, "WithCacheSize calls in the engine", n, 1)
+}
+
+// checkSelectionWriters (C10 R12): the data type, session and language selected on a store handle
+// change only through their setters: stores to baseDb.pfx / sid / lang occur only in methods named
+// Set... (and constructors). A read path that remembers something there (ToKey caching the
+// context's language) makes one lookup change the meaning of the next.
+func checkSelectionWriters(w *core.World, r *core.Report, rule string) {
+	n, bad := 0, ""
+	var badPos token.Pos
+	for _, fn := range w.LibFuncs {
+		for _, in := range allInstrs(fn) {
+			st, ok := in.(*ssa.Store)
+			if !ok {
+				continue
+			}
+			tn, f, ok := core.FieldOfAddr(st.Addr)
+			if !ok || tn != "db.baseDb" || (f != "pfx" && f != "sid" && f != "lang") {
+				continue
+			}
+			n++
+			if strings.HasPrefix(fn.Name(), "Set") || strings.HasPrefix(fn.Name(), "New") {
+				continue
+			}
+			bad = fmt.Sprintf("%s stores baseDb.%s at %s", core.QName(fn), f, w.Pos(st.Pos()))
+			badPos = st.Pos()
+		}
+	}
+	r.Check(bad == "" && n >= 3, rule, "db: the handle's selections are written by their setters only", badPos, fmt.Sprintf("%d stores to pfx/sid/lang, all in Set... methods or constructors", n),
+		"something other than a setter changes the data type, session or language selected on the store handle (for instance a lookup that remembers the context's language): the next operation runs under a selection its caller did not make: "+bad)
+}
+
+// checkBase64Agreement (C10 R13): where the filesystem back end encodes binary keys for file names
+// and decodes them again for listings, both directions use the same base64 alphabet.
+func checkBase64Agreement(w *core.World, r *core.Report, rule string) {
+	enc, dec := map[string]bool{}, map[string]bool{}
+	for _, fn := range w.FuncsIn("db/fs") {
+		for _, c := range core.Calls(fn) {
+			name := core.CallName(c)
+			var set map[string]bool
+			switch {
+			case strings.HasSuffix(name, "base64.(*Encoding).EncodeToString"), strings.HasSuffix(name, "base64.(*Encoding).Encode"):
+				set = enc
+			case strings.HasSuffix(name, "base64.(*Encoding).DecodeString"), strings.HasSuffix(name, "base64.(*Encoding).Decode"):
+				set = dec
+			default:
+				continue
+			}
+			args := core.CallArgs(c)
+			for _, s := range core.Sources(args[0]) {
+				if u, ok := s.(*ssa.UnOp); ok && u.Op == token.MUL {
+					if g, ok := u.X.(*ssa.Global); ok {
+						set[g.Name()] = true
+						continue
+					}
+				}
+				set["?"] = true
+			}
+		}
+	}
+	if len(enc) == 0 && len(dec) == 0 {
+		r.OK(rule, "db/fs: binary keys are encoded and decoded with the same alphabet", token.NoPos, "no base64 use in the back end")
+		return
+	}
+	r.Check(setStr(enc) == setStr(dec) && len(enc) == 1 && !enc["?"], rule, "db/fs: binary keys are encoded and decoded with the same alphabet", token.NoPos, "encode and decode both use "+setStr(enc),
+		fmt.Sprintf("file names are encoded with %s but decoded with %s: keys whose encoding contains the characters the alphabets differ in are stored but cannot be decoded - a listing skips them or stops there", setStr(enc), setStr(dec)))
+}
+
+// checkPersistKeyIsSessionId (C11 R13): the key under which the engine saves and loads a session
+// is Config.SessionId itself. A substitute for some value (a placeholder for the empty id, say)
+// is a name a client can choose as its session id.
+func checkPersistKeyIsSessionId(w *core.World, r *core.Report, rule string) {
+	n, bad := 0, ""
+	var badPos token.Pos
+	var fromId func(v ssa.Value, depth int) bool
+	fromId = func(v ssa.Value, depth int) bool {
+		for _, s := range core.Sources(v) {
+			if _, f, ok := core.LoadedField(s); ok && f == "SessionId" {
+				continue
+			}
+			return false
+		}
+		return true
+	}
+	for _, fn := range w.FuncsIn("engine") {
+		for _, c := range core.CallsTo(fn, "persist.(*Persister).Save", "persist.(*Persister).Load") {
+			args := core.CallArgs(c)
+			n++
+			if !fromId(args[len(args)-1], 0) {
+				bad = fmt.Sprintf("%s passes a key that is not Config.SessionId itself at %s", core.QName(fn), w.Pos(c.Pos()))
+				badPos = c.Pos()
+			}
+		}
+	}
+	r.Check(bad == "" && n >= 2, rule, "engine: sessions are stored under Config.SessionId itself", badPos, fmt.Sprintf("%d Save/Load call(s) keyed by the SessionId field", n),
+		"the engine stores a session under a key other than its session id (a placeholder, a derived name): a client that chooses that name as its session id reads and overwrites the other session: "+bad)
+}
+
+// checkHandleClearedAfterCloser (C13 R9): the stored transaction handle is forgotten (tx = nil)
+// only after the transaction was ended: every nil store to pgDb.tx is preceded on every path of
+// its function by a Commit or Rollback on the stored handle. A failure path that drops the handle
+// without ending the transaction leaves it open on the connection where nothing can reach it.
+func checkHandleClearedAfterCloser(w *core.World, r *core.Report, rule string) {
+	n := 0
+	for _, fn := range w.FuncsIn("db/postgres") {
+		for _, in := range allInstrs(fn) {
+			st, ok := in.(*ssa.Store)
+			if !ok || !core.IsNilConst(st.Val) {
+				continue
+			}
+			if tn, f, ok := core.FieldOfAddr(st.Addr); !ok || tn != "db/postgres.pgDb" || f != "tx" {
+				continue
+			}
+			n++
+			cut := core.NewCut()
+			for _, c := range core.Calls(fn) {
+				nm := core.CallName(c)
+				if (nm == pgTxIface+".Commit" || nm == pgTxIface+".Rollback") && isTxField(core.CallArgs(c)[0]) {
+					if _, isDefer := c.(*ssa.Defer); !isDefer {
+						cut.AddInstr(c.(ssa.Instruction))
+					}
+				}
+			}
+			hit, path := core.Reach(core.Entry(fn), core.IsInstr(st), cut)
+			r.Check(hit == nil && len(cut.Instrs) > 0, rule, core.QName(fn)+": the handle is forgotten only after the transaction was ended", st.Pos(), "every path to tx = nil passes Commit or Rollback",
+				"the stored transaction handle is dropped on a path that neither commits nor rolls back: the transaction stays open on the connection, out of reach of Abort and Stop: "+w.PathString(path))
+		}
+	}
+	r.Floor(rule, "nil stores to pgDb.tx", n, 2)
+}
+
+// checkNoRuneWrites (C14 R13): length and size prefixes are bytes. Writing a number with WriteRune
+// encodes values of 128 and above as two UTF-8 bytes, which the decoder reads as another length.
+func checkNoRuneWrites(w *core.World, r *core.Report, rule string) {
+	bad := ""
+	var badPos token.Pos
+	n := 0
+	for _, pk := range []string{"asm", "vm"} {
+		for _, fn := range w.FuncsIn(pk) {
+			for _, c := range core.Calls(fn) {
+				nm := core.CallName(c)
+				if strings.HasSuffix(nm, ".Write") || strings.HasSuffix(nm, ".WriteByte") {
+					n++
+				}
+				if !strings.HasSuffix(nm, ".WriteRune") {
+					continue
+				}
+				args := core.CallArgs(c)
+				if _, isC := core.ConstInt(core.Strip(args[len(args)-1])); isC {
+					continue // a constant character (line break, separator)
+				}
+				bad = fmt.Sprintf("%s writes a computed value as a rune at %s", core.QName(fn), w.Pos(c.Pos()))
+				badPos = c.Pos()
+			}
+		}
+	}
+	r.Check(bad == "", rule, "codec: numbers are written as bytes, never as runes", badPos, fmt.Sprintf("no WriteRune of a computed value in asm or vm (%d byte writes)", n),
+		"a length or size is written with WriteRune: values of 128 and above become two UTF-8 bytes and the decoder reads a different length: "+bad)
+}
+
+// checkMenuAddReachesProcessor (C16 R10): every batch menu line the assembler accepts reaches the
+// menu processor: every success return of Batcher.MenuAdd passes MenuProcessor.Add. A line that is
+// skipped (a duplicate selector, say) disappears from the bytecode without an error.
+func checkMenuAddReachesProcessor(w *core.World, r *core.Report, rule string) {
+	ma := w.Func("asm", "(*Batcher).MenuAdd")
+	if ma == nil {
+		r.Undecided(rule, "asm.(*Batcher).MenuAdd", token.NoPos, "anchor not found")
+		return
+	}
+	r.Touch(core.QName(ma))
+	cut := cutWithHelpers(w, ma, func(fn *ssa.Function, cut *core.Cut) {
+		for _, c := range core.CallsTo(fn, "asm.(*MenuProcessor).Add") {
+			cut.AddInstr(c.(ssa.Instruction))
+		}
+	}, 1)
+	hit, path := core.Reach(core.Entry(ma), isSuccessReturnPred(ma), cut)
+	r.Check(hit == nil && len(cut.Instrs) > 0, rule, "asm.(*Batcher).MenuAdd: every accepted batch line reaches the menu processor", ma.Pos(), "every success return passes MenuProcessor.Add",
+		"a batch menu line can be accepted without being handed to the menu processor: neither its display instruction nor its INCMP reaches the bytecode, and nothing reports it: "+w.PathString(path))
+}
+
+// checkDiagnosticsArePure (C07 R10): String / GoString / Error / Format methods of library types run
+// wherever a value is logged or printed - on some builds and log levels only, and at points no
+// caller controls. They must not change anything: no store to a field or through an index, no map
+// update, and no call of a library function that does (a destructive getter such as Cache.Last or
+// State.GetCode inside a String method makes behaviour depend on the log level).
+func checkDiagnosticsArePure(w *core.World, r *core.Report, rule string) {
+	memo := map[*ssa.Function]string{}
+	var impure func(fn *ssa.Function, depth int) string
+	impure = func(fn *ssa.Function, depth int) string {
+		if v, ok := memo[fn]; ok {
+			return v
+		}
+		memo[fn] = ""
+		if depth > 3 || len(fn.Blocks) == 0 {
+			return ""
+		}
+		for _, in := range allInstrs(fn) {
+			switch t := in.(type) {
+			case *ssa.Store:
+				if _, f, ok := core.FieldOfAddr(t.Addr); ok {
+					memo[fn] = fmt.Sprintf("%s stores field %s at %s", core.QName(fn), f, w.Pos(t.Pos()))
+					return memo[fn]
+				}
+				if ia, ok := t.Addr.(*ssa.IndexAddr); ok {
+					local := false
+					for _, s := range core.Sources(ia.X) {
+						if al, ok := s.(*ssa.Alloc); ok && al.Parent() == fn {
+							local = true
+						}
+						if _, ok := s.(*ssa.MakeSlice); ok {
+							local = true
+						}
+					}
+					if !local {
+						memo[fn] = fmt.Sprintf("%s writes an element of non-local memory at %s", core.QName(fn), w.Pos(t.Pos()))
+						return memo[fn]
+					}
+				}
+			case *ssa.MapUpdate:
+				if _, ok := core.Strip(t.Map).(*ssa.MakeMap); !ok {
+					local := false
+					for _, s := range core.Sources(t.Map) {
+						if _, ok := s.(*ssa.MakeMap); ok {
+							local = true
+						}
+					}
+					if !local {
+						memo[fn] = fmt.Sprintf("%s updates a map at %s", core.QName(fn), w.Pos(t.Pos()))
+						return memo[fn]
+					}
+				}
+			case ssa.CallInstruction:
+				if g := core.StaticCallee(t); g != nil && w.InLib(g) && g != fn {
+					if why := impure(g, depth+1); why != "" {
+						memo[fn] = why
+						return why
+					}
+				}
+			}
+		}
+		return ""
+	}
+	n := 0
+	for _, fn := range w.LibFuncs {
+		if fn.Signature.Recv() == nil || fn.Parent() != nil {
+			continue
+		}
+		switch fn.Name() {
+		case "String", "GoString", "Error", "Format":
+		default:
+			continue
+		}
+		if fn.Name() != "Format" && fn.Signature.Params().Len() != 0 {
+			continue
+		}
+		n++
+		why := impure(fn, 0)
+		r.Check(why == "", rule, core.QName(fn)+": a diagnostic method changes nothing", fn.Pos(), "no store, map update or impure library call",
+			"a method that runs whenever the value is logged or printed has an effect: what a session does then depends on the log level and build tags (a per-request engine logs at other points than a long-lived one): "+why)
+	}
+	r.Floor(rule, "String/Error methods of library types", n, 5)
+}
+
+// checkReattachAfterSave (C04 R10): where the engine saves a session that is new to the store it
+// re-attaches its own state and cache to the persister afterwards (a flushing persister replaces
+// its content on Save): every path from a Persister.Save in a function that also loads sessions to
+// a return passes WithContent. Otherwise the engine moves one State while Finish stores another.
+func checkReattachAfterSave(w *core.World, r *core.Report, rule string) {
+	n := 0
+	for _, fn := range w.FuncsIn("engine") {
+		if len(core.CallsTo(fn, "persist.(*Persister).Load")) == 0 {
+			continue
+		}
+		for _, c := range core.CallsTo(fn, "persist.(*Persister).Save") {
+			n++
+			r.Touch(core.QName(fn))
+			cut := core.NewCut()
+			for _, wc := range core.CallsTo(fn, "persist.(*Persister).WithContent") {
+				cut.AddInstr(wc.(ssa.Instruction))
+			}
+			cut.AddEdge(errNonNilEdges(callErr(c))...)
+			hit, path := core.Reach(core.After(c.(ssa.Instruction)), core.IsReturn, cut)
+			r.Check(hit == nil && len(cut.Instrs) > 0, rule, core.QName(fn)+": state and cache re-attached after saving a new session", c.Pos(), "every return after a successful Save passes WithContent",
+				"after saving a session that is new to the store the engine does not point the persister at its own state and cache again: a flushing persister has replaced its content, so the engine moves one State object while Finish stores another (the stored position stays empty): "+w.PathString(path))
+		}
+	}
+	r.Floor(rule, "Save calls in the session attach path", n, 1)
+}
+
+// checkWhoMayCall is a who-may-call rule: calls of the named functions (static or through the
+// named interface method) occur only in library functions accepted by allowed.
+func checkWhoMayCall(w *core.World, r *core.Report, rule, construct string, isTarget func(ssa.CallInstruction) bool, allowed func(*ssa.Function) bool, okText, badText string, floor int) {
+	n, bad := 0, ""
+	var badPos token.Pos
+	for _, fn := range w.LibFuncs {
+		for _, c := range core.Calls(fn) {
+			if !isTarget(c) {
+				continue
+			}
+			n++
+			if !allowed(fn) {
+				bad = fmt.Sprintf("%s at %s", core.QName(fn), w.Pos(c.Pos()))
+				badPos = c.Pos()
+			}
+		}
+	}
+	r.Check(bad == "" && n >= floor, rule, construct, badPos, fmt.Sprintf("%d call site(s), %s", n, okText), badText+": "+bad)
+}
+
+// checkMenuBuffersDistinct (C14 R14): the two halves of a batch menu expansion grow in separate
+// memory: the initial values of the two accumulators of MenuProcessor.ToLines share no allocation.
+func checkMenuBuffersDistinct(w *core.World, r *core.Report, rule string) {
+	tl := w.Func("asm", "(*MenuProcessor).ToLines")
+	if tl == nil {
+		r.Undecided(rule, "asm.(*MenuProcessor).ToLines", token.NoPos, "anchor not found")
+		return
+	}
+	var accs []*ssa.Phi
+	seen := map[*ssa.Phi]bool{}
+	for _, c := range core.CallsTo(tl, "vm.NewLine") {
+		if phi, ok := core.CallArgs(c)[0].(*ssa.Phi); ok && !seen[phi] {
+			seen[phi] = true
+			accs = append(accs, phi)
+		}
+	}
+	if len(accs) < 2 {
+		return // C16 R2 reports the shape
+	}
+	allocs := func(phi *ssa.Phi) map[ssa.Value]bool {
+		out := map[ssa.Value]bool{}
+		for _, e := range phi.Edges {
+			if c, ok := e.(*ssa.Call); ok && core.IsCallTo(c, "vm.NewLine") {
+				continue // the loop-carried value
+			}
+			for _, s := range core.Sources(e) {
+				switch s.(type) {
+				case *ssa.Alloc, *ssa.MakeSlice:
+					out[s] = true
+				}
+			}
+		}
+		return out
+	}
+	shared := false
+	a0 := allocs(accs[0])
+	for _, other := range accs[1:] {
+		for a := range allocs(other) {
+			if a0[a] {
+				shared = true
+			}
+		}
+	}
+	r.Check(!shared, rule, "asm.(*MenuProcessor).ToLines: the two instruction buffers share no memory", tl.Pos(), "distinct allocations",
+		"both halves of the menu expansion are carved from one allocation: when the first grows past its share, the in-place append of vm.NewLine overwrites instructions already stored in the second")
+}
+
+// checkReadLinePrefixUsed (C17 R9): where the engine's Loop reads input with bufio's ReadLine, the
+// "line continues" result is used. Dropped, an over-long line is handed on in pieces, each of
+// which passes the length check the whole line was meant to fail.
+func checkReadLinePrefixUsed(w *core.World, r *core.Report, rule string) {
+	for _, fn := range w.FuncsIn("engine") {
+		for _, c := range core.CallsTo(fn, "bufio.(*Reader).ReadLine") {
+			call, ok := c.(*ssa.Call)
+			if !ok {
+				continue
+			}
+			used := false
+			if refs := call.Referrers(); refs != nil {
+				for _, u := range *refs {
+					if ex, ok := u.(*ssa.Extract); ok && ex.Index == 1 {
+						if er := ex.Referrers(); er != nil && len(*er) > 0 {
+							used = true
+						}
+					}
+				}
+			}
+			r.Check(used, rule, core.QName(fn)+": ReadLine's continuation flag is used", c.Pos(), "isPrefix is read",
+				"the input reader drops the 'line continues' result: a line longer than the buffer arrives as several inputs, each of which passes the length limit the whole line exceeds")
+		}
+	}
+}
+
+// checkValidatedBytesAreInput (C17 R10): ValidInput matches the bytes it was given, not a cleaned-up
+// copy: the argument of every pattern match in it is the parameter itself. Validating a trimmed or
+// normalised copy accepts bytes the engine then executes untrimmed.
+func checkValidatedBytesAreInput(w *core.World, r *core.Report, rule string) {
+	vi := w.Func("vm", "ValidInput")
+	if vi == nil {
+		r.Undecided(rule, "vm.ValidInput", token.NoPos, "anchor not found")
+		return
+	}
+	scope := []*ssa.Function{vi}
+	for _, c := range core.Calls(vi) {
+		if g := core.StaticCallee(c); g != nil && core.PkgOf(g) == "vm" && len(g.Blocks) > 0 {
+			scope = append(scope, g)
+		}
+	}
+	n, bad := 0, ""
+	var badPos token.Pos
+	for _, fn := range scope {
+		for _, c := range core.Calls(fn) {
+			nm := core.CallName(c)
+			if !strings.HasPrefix(nm, "regexp.(*Regexp).Match") && !strings.HasPrefix(nm, "regexp.Match") {
+				continue
+			}
+			args := core.CallArgs(c)
+			n++
+			for _, s := range core.Sources(args[len(args)-1]) {
+				if _, ok := s.(*ssa.Parameter); !ok {
+					bad = fmt.Sprintf("%s matches %s at %s", core.QName(fn), valueDesc(s), w.Pos(c.Pos()))
+					badPos = c.Pos()
+				}
+			}
+		}
+	}
+	r.Check(bad == "" && n > 0, rule, "vm.ValidInput: the bytes validated are the bytes given", badPos, fmt.Sprintf("%d pattern match(es) on the parameter itself", n),
+		"the validator examines a modified copy of the input (trimmed, normalised): input that fails the pattern as given is accepted, and the engine executes it as given: "+bad)
+}
+
+// checkNoMustOnRequestPath (C08 R12): helpers of the standard library that panic instead of
+// returning an error (template.Must, regexp.MustCompile, ...) are not called with run-time data on
+// the request path: a page error carries client bytes into the template text, so a Must-style
+// parse turns an unparsable input into a crash.
+func checkNoMustOnRequestPath(w *core.World, r *core.Report, rule string, reach map[*ssa.Function]bool) {
+	bad := ""
+	var badPos token.Pos
+	n := 0
+	for _, fn := range w.LibFuncs {
+		if !reach[fn] {
+			continue
+		}
+		n++
+		for _, c := range core.Calls(fn) {
+			g := core.StaticCallee(c)
+			if g == nil || w.InLib(g) || g.Pkg == nil {
+				continue
+			}
+			if !strings.HasPrefix(g.Name(), "Must") {
+				continue
+			}
+			constant := true
+			for _, a := range core.CallArgs(c) {
+				for _, s := range core.Sources(a) {
+					if _, ok := s.(*ssa.Const); !ok {
+						constant = false
+					}
+				}
+			}
+			if !constant {
+				bad = fmt.Sprintf("%s calls %s with run-time data at %s", core.QName(fn), core.CallName(c), w.Pos(c.Pos()))
+				badPos = c.Pos()
+			}
+		}
+	}
+	r.Check(bad == "", rule, "request path: no panicking Must helper on run-time data", badPos, fmt.Sprintf("%d functions on the request path scanned", n),
+		"a helper that panics instead of returning an error is applied to data that depends on the request: an input the helper cannot digest crashes the engine: "+bad)
+}
+
+// isFinishHelper: fn is an unexported helper of the engine whose only call sites are in Finish.
+func isFinishHelper(w *core.World, fn *ssa.Function) bool {
+	sites, escapes := staticCallSites(w, fn)
+	if escapes || len(sites) == 0 {
+		return false
+	}
+	for _, c := range sites {
+		if c.Parent().Name() != "Finish" {
+			return false
+		}
+	}
+	return true
+}
+
+// checkLateralErrorsReturned (C03 R15): in the target dispatcher the error of State.Next and
+// State.Previous reaches the caller. The INCMP handler treats a refused lateral move (IndexError)
+// as "no match" and lets the input fall through to the catch node; a dispatcher that swallows the
+// error (clamping at the first page, say) makes an input the menu does not offer count as a match.
+func checkLateralErrorsReturned(w *core.World, r *core.Report, rule string) {
+	n := 0
+	for d := range navDispatchers(w) {
+		scope := []*ssa.Function{d}
+		for _, c := range core.Calls(d) {
+			if g := core.StaticCallee(c); g != nil && core.PkgOf(g) == "vm" && len(g.Blocks) > 0 && g != d {
+				scope = append(scope, g)
+			}
+		}
+		for _, fn := range scope {
+			for _, c := range core.CallsTo(fn, stNext, stPrev) {
+				n++
+				ev := callErr(c)
+				ok := false
+				if ev != nil {
+					for v := range core.Forward(ev, nil) {
+						if refs := v.Referrers(); refs != nil {
+							for _, u := range *refs {
+								if ret, isRet := u.(*ssa.Return); isRet && len(ret.Results) > 0 && ret.Results[len(ret.Results)-1] == v {
+									ok = true
+								}
+								if stv, isSt := u.(*ssa.Store); isSt {
+									if a, isA := stv.Addr.(*ssa.Alloc); isA && isNamedResult(fn, a.Comment) {
+										ok = true
+									}
+								}
+							}
+						}
+					}
+					// and no success return behind its failure edge
+					for _, e := range errNonNilEdges(ev) {
+						if hit, _ := core.Reach(core.Point{B: e.To(), I: 0}, isSuccessReturnPred(fn), nil); hit != nil {
+							ok = false
+						}
+					}
+				}
+				r.Check(ok, rule, core.QName(fn)+": the error of a lateral move reaches the caller", c.Pos(), "returned, no success return behind its failure edge",
+					"a refused lateral move (no next / previous page) is swallowed by the dispatcher: INCMP counts the selector as matched although the menu does not offer it, instead of letting the input fall through to the catch node")
+			}
+		}
+	}
+	r.Floor(rule, "lateral moves in the dispatcher", n, 2)
+}
+
+// checkMatchClearsReadin (C20 R10): a matched INCMP - by selector or by wildcard - clears READIN
+// before it moves: every path to the handler's move passes the constant ResetFlag(FLAG_READIN).
+// With READIN left set, a node that later runs out of code is taken for unhandled input (catch
+// node, continue) instead of a dead end (TERMINATE, stop).
+func checkMatchClearsReadin(w *core.World, r *core.Report, rule string) {
+	h := handlerByName(w, r, "INCMP")
+	fRead, ok := constOf(w, r, "state", "FLAG_READIN")
+	if h == nil || !ok {
+		return
+	}
+	var moves []ssa.CallInstruction
+	for d := range navDispatchers(w) {
+		moves = append(moves, callsToSet(h, map[*ssa.Function]bool{d: true})...)
+	}
+	cut := core.NewCut()
+	for _, c := range flagConstCalls(h, fRead, stResetFlag) {
+		cut.AddInstr(c.(ssa.Instruction))
+	}
+	for _, m := range moves {
+		ok, path := core.MustPass(m.(ssa.Instruction), cut)
+		r.Check(ok && len(cut.Instrs) > 0, rule, "INCMP handler: READIN cleared before every move", m.Pos(), "every path to the move passes ResetFlag(FLAG_READIN)",
+			"a match (the wildcard, say) moves with READIN still set: when the target node runs out of code the dead-code check takes it for unhandled input and goes to the catch node instead of terminating the session: "+w.PathString(path))
+	}
+	if len(moves) == 0 {
+		r.Undecided(rule, "INCMP handler: move", h.Pos(), "no call of the target dispatcher found")
+	}
+}
